@@ -8,8 +8,15 @@ export GOFLAGS=-mod=mod GOPROXY=off GOSUMDB=off GOTOOLCHAIN=local
 bak=$(mktemp -d /tmp/evbak.XXXXXX); cp -a evidence/. "$bak"/
 git -C /repo apply "$PWD/seeded/$seed/patch.diff" || { echo "patch does not apply"; exit 2; }
 for p in "$@"; do
-  echo "--- $seed / $p"
-  python3 check.py "$p" --tier quick 2>&1 | grep -E "^(VIOLATION|KNOWN-FINDING|OK|FAIL)" | head -8
+  out=$(timeout 1500 python3 check.py "$p" --tier quick 2>&1)
+  nv=$(echo "$out" | grep -c "^VIOLATION")
+  nfi=$(echo "$out" | grep -c "no-failing-input-found")
+  echo "--- $seed / $p : violations=$nv no-failing-input-found=$nfi :: $(echo "$out" | grep -E '^(OK|FAIL)' | cut -c1-150)"
+  if [ "$nv" -gt 0 ] && [ "$nfi" -eq 0 ]; then
+    f=$(echo "$out" | grep "^VIOLATION" | head -1 | sed 's/.*replay=//'); python3 -c "
+import json,sys
+d=json.load(open('$f')); print('    why:', str(d.get('why'))[:160]); print('    case:', str(d.get('case'))[:160])"
+  fi
 done
 git -C /repo checkout -- . ; git -C /repo clean -fdq
 git -C /repo status --short
